@@ -23,6 +23,12 @@ WORLDS = {
     "w2nonce": dict(module="MC_Ledger_w2.tla", gencfg="MC_Ledger_gen_w2nonce.cfg", hcfg=W2, nq=10, nt=100),
 }
 
+W3 = {"stakers": 2, "operators": 2, "assets": ["lst", "nst"], "holdops": ["o1"],
+      "scales": ["1", "1000003"], "blocksPer": 5, "modelPrec": 100}
+# lead configurations: invariants that the FAITHFUL model violates exactly when the code has the
+# corresponding defect; TLC's shortest counterexample is replayed on the real code (DESIGN 2.2)
+LEADS = [("MC_Ledger_t.tla", "MC_Ledger_lead_atomic.cfg", W3)]
+
 TAG_UNIVERSE = {
     "C01": ["C01_Conservation", "C01_Published", "C01_Escrow", "C01_NonNegative", "C01_OnlyDepositsCreate"],
     "C02": ["C02_ShareSum", "C02_SelfShare", "C02_ListExact", "C02_EmptyPool", "C02_Fair", "C02_RoundTripIn", "C02_RoundTripOut"],
@@ -31,7 +37,7 @@ TAG_UNIVERSE = {
             "C03_NotReleasedWhenDue", "C03_Credit"],
     "C04": ["C04_Proportion", "C04_SameFractionPools", "C04_SameFractionUndelegations", "C04_NotAtRiskTouched", "C04_Frame",
             "C04_ReplayAccepted", "C04_ReplaySlashedAgain", "C04_NotRecorded", "C04_RecordedPools", "C04_RecordedUndelegations"],
-    "C09": ["C09_FailedButChanged"],
+    "C09": ["C09_FailedButChanged", "C09_EndBlockItemPartial"],
 }
 
 
@@ -61,60 +67,89 @@ def _run(tier, seed, harness, d):
         if m["violated"]:
             raise vlib.Infra(f"model counterexample in {cfg}: {m['violated']} (lead, not a verdict)\n" + m["out"][-3000:])
         res["mc"].append(m)
-    # 2..4 per world: generate, replay on the real code, validate
+    # 2..4 per world: generate, replay on the real code, validate (worlds in parallel)
     counts = collections.Counter()
     distinct = set()
     total_beh = total_ev = 0
-    for wname, w in WORLDS.items():
+    chunk = 60 if tier == "quick" else 150
+
+    def gen_world(item):
+        wname, w = item
         dg = os.path.join(d, "gen-" + wname)
         os.makedirs(dg)
         vlib.stage_specs(dg, with_override=False)
         nbeh = w["nq"] if tier == "quick" else w["nt"]
-        behs = vlib.tlc_simulate(dg, w["module"], w["gencfg"], num=nbeh, depth=60, seed=seed + 1000)[:nbeh * 2]
-        bpath = os.path.join(dg, "beh.ndjson")
-        open(bpath, "w").write("\n".join(behs) + "\n")
-        # replay + validate in chunks (one TLC run per chunk)
-        chunk = 150
-        for ci in range(0, len(behs), chunk):
-            dt = os.path.join(d, f"trace-{wname}-{ci}")
-            os.makedirs(dt)
-            vlib.stage_specs(dt, with_override=True)
-            cpath = os.path.join(dt, "beh.ndjson")
-            open(cpath, "w").write("\n".join(behs[ci:ci + chunk]) + "\n")
-            p = vlib.sh([harness, "ledger", "-in", cpath, "-out", os.path.join(dt, "trace.ndjson"), "-seed", str(seed), "-cfg", json.dumps(w["hcfg"])], timeout=900, check=False)
-            if p.returncode != 0:
-                raise vlib.Infra("harness ledger failed:\n" + p.stdout[-3000:])
-            lines = [json.loads(x) for x in open(os.path.join(dt, "trace.ndjson")) if x.strip()]
-            tags, nstates = vlib.tlc_trace(dt, "Trace_Ledger.tla", "Trace_Ledger.cfg", timeout=3000)
-            if nstates != len(lines) + 1:
-                raise vlib.Infra(f"trace not fully consumed: {nstates} states for {len(lines)} lines")
-            # map each line to its behaviour
-            bidx, starts = [], []
-            cur = -1
-            for i, ln in enumerate(lines):
-                if ln["ev"] == "reset":
-                    cur += 1
-                    starts.append(i)
-                bidx.append(cur)
-            for ln in lines:
-                if ln["ev"] != "reset":
-                    counts[f"{ln['ev']}:{'ok' if ln['ok'] else 'fail'}"] += 1
-                    distinct.add(json.dumps([ln["ev"], ln["a"], ln["ok"]], sort_keys=True))
-            for t in tags:
-                li = t["l"] - 1
-                b = bidx[li]
-                t["world"] = wname
-                t["pre_h"] = lines[li - 1]["st"]["h"] if li > 0 else None
-                t["history"] = [dict(ev=x["ev"], a=x["a"], ok=x["ok"], h=lines[starts[b] + i]["st"]["h"])
-                                for i, x in enumerate(lines[starts[b] + 1:li + 1])]
-                t["behaviour"] = json.loads(behs[ci + b])
-                t["observed"] = {k: lines[li].get(k) for k in ("ev", "a", "ok", "err", "panic")}
-                t["scale"] = lines[starts[b]].get("scale")
-                res["tags"].append(t)
-            total_beh += cur + 1
-            total_ev += len(lines)
-            if not res["samples"]:
-                res["samples"] = [{"behaviour": json.loads(behs[0]), "first_trace_lines": [{k: v for k, v in ln.items() if k != "st"} for ln in lines[1:6]]}]
+        return wname, vlib.tlc_simulate(dg, w["module"], w["gencfg"], num=nbeh, depth=60, seed=seed + 1000)[:nbeh * 2]
+
+    def run_chunk(job):
+        wname, ci, behs = job
+        w = WORLDS[wname]
+        dt = os.path.join(d, f"trace-{wname}-{ci}")
+        os.makedirs(dt)
+        vlib.stage_specs(dt, with_override=True)
+        cpath = os.path.join(dt, "beh.ndjson")
+        open(cpath, "w").write("\n".join(behs) + "\n")
+        p = vlib.sh([harness, "ledger", "-in", cpath, "-out", os.path.join(dt, "trace.ndjson"), "-seed", str(seed + ci), "-cfg", json.dumps(w["hcfg"])], timeout=900, check=False)
+        if p.returncode != 0:
+            raise vlib.Infra("harness ledger failed:\n" + p.stdout[-3000:])
+        lines = [json.loads(x) for x in open(os.path.join(dt, "trace.ndjson")) if x.strip()]
+        tags, nstates = vlib.tlc_trace(dt, "Trace_Ledger.tla", "Trace_Ledger.cfg", timeout=3000)
+        if nstates != len(lines) + 1:
+            raise vlib.Infra(f"trace not fully consumed: {nstates} states for {len(lines)} lines")
+        return wname, ci, behs, lines, tags
+
+    import concurrent.futures as cf
+    par = int(os.environ.get("VERIF_PAR", "6"))
+    def lead(item):
+        module, cfg, hcfg = item
+        dl = os.path.join(d, "lead-" + cfg)
+        os.makedirs(dl)
+        vlib.stage_specs(dl, with_override=False)
+        r, st = vlib.tlc_lead(dl, module, cfg)
+        return cfg, hcfg, r, st
+
+    with cf.ThreadPoolExecutor(max_workers=par) as ex:
+        gens = list(ex.map(gen_world, WORLDS.items()))
+        leads = list(ex.map(lead, LEADS))
+        jobs = []
+        res["leads"] = []
+        for cfg, hcfg, r, st in leads:
+            res["leads"].append({"cfg": cfg, "invariant": r[0] if r else None, "behaviour": r[1] if r else None, "states": st["distinct"] if st else None})
+            if r:
+                wname = "lead:" + cfg
+                WORLDS[wname] = dict(hcfg=hcfg)
+                jobs.append((wname, 0, [json.dumps(r[1])]))
+        for wname, behs in gens:
+            for ci in range(0, len(behs), chunk):
+                jobs.append((wname, ci, behs[ci:ci + chunk]))
+        results = list(ex.map(run_chunk, jobs))
+    for wname, ci, behs, lines, tags in results:
+        bidx, starts = [], []
+        cur = -1
+        for i, ln in enumerate(lines):
+            if ln["ev"] == "reset":
+                cur += 1
+                starts.append(i)
+            bidx.append(cur)
+        for ln in lines:
+            if ln["ev"] != "reset":
+                counts[f"{ln['ev']}:{'ok' if ln['ok'] else 'fail'}"] += 1
+                distinct.add(json.dumps([ln["ev"], ln["a"], ln["ok"]], sort_keys=True))
+        for t in tags:
+            li = t["l"] - 1
+            b = bidx[li]
+            t["world"] = wname
+            t["pre_h"] = lines[li - 1]["st"]["h"] if li > 0 else None
+            t["history"] = [dict(ev=x["ev"], a=x["a"], ok=x["ok"], h=lines[starts[b] + i]["st"]["h"])
+                            for i, x in enumerate(lines[starts[b] + 1:li + 1])]
+            t["behaviour"] = json.loads(behs[b])
+            t["observed"] = {k: lines[li].get(k) for k in ("ev", "a", "ok", "err", "panic")}
+            t["scale"] = lines[starts[b]].get("scale")
+            res["tags"].append(t)
+        total_beh += cur + 1
+        total_ev += len(lines)
+        if not res["samples"]:
+            res["samples"] = [{"behaviour": json.loads(behs[0]), "first_trace_lines": [{k: v for k, v in ln.items() if k != "st"} for ln in lines[1:6]]}]
     res["behaviours"] = total_beh
     res["events"] = total_ev
     res["event_counts"] = dict(counts)
